@@ -67,3 +67,36 @@ def replay_sign(inp):
             if why:
                 bad.append({"algorithm": alg, "reply_type": rt, "why": why})
     return {"violates": bool(bad), "detail": bad[:3]}
+
+
+def sign_twice(inp):
+    """ONE AgentKey object asked to sign several times in a row (a long-lived agent, a retry): every request on the wire is
+    exactly  13 || string(blob) || string(data) || uint32(flags for the algorithm)  and nothing else"""
+    agent = AgentSSH()
+    blob = Message()
+    blob.add_string("x-unknown-key-type")
+    blob.add_bytes(b"fake-key-material")
+    key = AgentKey(agent, blob.asbytes())
+    bad = []
+    calls = [("first data", "rsa-sha2-256"), ("second", "rsa-sha2-512"), ("third!", None), ("first data", "rsa-sha2-256")]
+    for n, (data, alg) in enumerate(calls):
+        sig = b"sig%d" % n
+        body = bytes([14]) + struct.pack(">I", len(sig)) + sig
+        agent._conn = Conn(struct.pack(">I", len(body)) + body)
+        try:
+            got = key.sign_ssh_data(data.encode(), alg)
+        except SSHException as e:
+            bad.append({"call": n, "why": "raised %r" % (e,)})
+            continue
+        want = Message()
+        want.add_byte(bytes([13]))
+        want.add_string(key.asbytes())
+        want.add_string(data.encode())
+        want.add_int(WANT.get(alg, 0))
+        frame = struct.pack(">I", len(want.asbytes())) + want.asbytes()
+        if agent._conn.sent != frame:
+            bad.append({"call": n, "algorithm": alg, "why": "request on the wire is %d bytes, expected %d (tail %s, expected %s)"
+                        % (len(agent._conn.sent), len(frame), agent._conn.sent.hex()[-16:], frame.hex()[-16:])})
+        if got != sig:
+            bad.append({"call": n, "why": "signature altered"})
+    return {"violates": bool(bad), "detail": bad[:3]}
